@@ -2,7 +2,7 @@
 # runs every filed (or pending) seeded change against the check of its property (and optionally others); prints which rule reports it
 SRC=${1:-/verif/seeded}
 for d in $SRC/*/; do
-  n=$(basename $d); id=${n%-*}
+  n=$(basename $d); id=${n%-*}; id=${id#r[0-9]-}
   [ -f $d/patch.diff ] || continue
   T=$(mktemp -d /tmp/sa-seed-XXXXXX); mkdir -p $T/evidence; cp -r /repo/yastn $T/yastn
   if ! ( cd $T && patch -p1 -s < $d/patch.diff ); then echo "$n PATCH-DOES-NOT-APPLY"; rm -rf $T; continue; fi
